@@ -7,6 +7,7 @@ open C05Model
 let hexn s = n_of_hex s
 let hn n = hex_of_n n
 let hz z = hex_of_z z
+let string_of_int_hex (i : int) : string = Printf.sprintf "%x" i
 
 let parse_sample (s : string) : sample =
   match split_on '.' s with
@@ -59,9 +60,102 @@ let case_o id opt tfs trs smps txs obs =
                      samples_string rs; hn (total_dur rs); samples_string rm; hn (total_dur rm) ] in
   if m = obs then Printf.printf "OK %s\n" id else Printf.printf "MISMATCH %s model=%s\n" id m
 
+
+(* ---- H cases *)
+open C05FragModel
+
+let kv (cfg : string) : (string * string) list =
+  L.map (fun f -> match S.index_opt f '=' with
+      | Some i -> (S.sub f 0 i, S.sub f (i + 1) (S.length f - i - 1))
+      | None -> (f, "")) (split_on ';' cfg)
+
+let hexlist s = if s = "-" then [] else L.map hexn (split_on ',' s)
+
+let parse_op (s : string) : op * coq_N list (* lazily written data *) =
+  match split_on ':' s with
+  | ["F"; sm; dts; data] -> (OFull (parse_sample sm, hexn dts, bytes_of_hex data), [])
+  | ["A"; sm; dts; data] -> (OMeta (parse_sample sm, hexn dts), bytes_of_hex data)
+  | ["T"; tr; sm; dts; data] -> (OFullTo (hexn tr, parse_sample sm, hexn dts, bytes_of_hex data), [])
+  | ["M"; tr; sm; dts; data] -> (OMetaTo (hexn tr, parse_sample sm, hexn dts), bytes_of_hex data)
+  | ["S"; dts; sms; data] -> (OMetas (parse_samples sms, hexn dts), bytes_of_hex data)
+  | ["I"; dts; sms; data] -> (OInterval (hexn dts, parse_samples sms, bytes_of_hex data), [])
+  | _ -> failwith ("bad op " ^ s)
+
+let class_char = function COk -> "o" | CErr -> "e" | CPanic -> "p"
+
+let traf_state (fr : frag) : string =
+  S.concat "" (L.map (fun t ->
+      " T" ^ hn t.tf_hd.tf_track ^ ":" ^ hn t.tf_dt.td_base ^ ":" ^
+      (match t.tf_truns with
+       | [] -> "-"
+       | l -> S.concat "," (L.map (fun r -> hn r.tr_won ^ "." ^ string_of_int_hex (L.length r.tr_samples)) l)))
+      fr.fr_trafs)
+
+let traf_enc (fr : frag) : string =
+  S.concat "" (L.map (fun t ->
+      let h = t.tf_hd in
+      " T" ^ hn h.tf_track ^ ":" ^ tf_string h ^ ":" ^ hn t.tf_dt.td_version ^ ":" ^
+      (match t.tf_truns with
+       | [] -> "-"
+       | l -> S.concat "," (L.map (fun r -> hn r.tr_flags ^ "." ^ hn r.tr_fsf ^ "." ^ hz r.tr_doff) l)))
+      fr.fr_trafs)
+
+let full_string (l : fullsample list) : string =
+  match l with
+  | [] -> "-"
+  | _ -> S.concat "," (L.map (fun f -> sample_string f.fs_s ^ "." ^ hn f.fs_dts ^ "." ^ hex_of_bytes f.fs_data) l)
+
+let res_class = function Base.Ok _ -> "o" | Base.Err -> "e" | Base.Panic -> "p" | Base.OutOfFuel -> "fuel"
+
+let case_h id cfg opss obs =
+  let c = kv cfg in
+  let g k = L.assoc k c in
+  let tracks = hexlist (g "t") in
+  let fr0 = if g "m" = "1" then create_multi tracks else create_fragment (L.hd tracks) in
+  let tx = hexlist (g "tx") in
+  let trafs = L.mapi (fun i t -> { t with tf_extra = (try L.nth tx i with _ -> N0) }) fr0.fr_trafs in
+  let fr0 = { fr0 with fr_trafs = trafs; fr_pre = hexn (g "pre"); fr_moofx = hexn (g "mx"); fr_post = hexn (g "post") } in
+  let ops = if opss = "-" then [] else L.map parse_op (split_on ';' opss) in
+  let (classes, fro) = run_ops fr0 (L.map fst ops) in
+  (* data written separately by the caller: that of the lazily added ops that succeeded *)
+  let lazy_data = L.concat (L.map2 (fun (_, d) cl -> if cl = COk then d else [])
+                              (L.filteri (fun i _ -> i < L.length classes) ops) classes) in
+  let b = Buffer.create 256 in
+  Buffer.add_string b ("ops=" ^ S.concat "" (L.map class_char classes));
+  (match fro with
+   | None -> ()
+   | Some fr ->
+     let m = fr.fr_mdat in
+     Buffer.add_string b ("|st=" ^ hn fr.fr_next ^ "/" ^ string_of_int_hex (L.length m.md_data) ^ "/" ^ hn m.md_lazy
+                          ^ "/" ^ string_of_int_hex (L.length m.md_parts));
+     Buffer.add_string b (traf_state fr);
+     if g "enc" = "1" then begin
+       let r = encode_frag (g "o" = "1") fr in
+       Buffer.add_string b ("|enc=" ^ res_class r);
+       match r with
+       | Base.Ok fe ->
+         Buffer.add_string b ("/" ^ hn (moof_size fe) ^ "/" ^ hn (md_header_size fe.fr_mdat) ^ "/" ^ hn (encoded_len fe));
+         Buffer.add_string b (traf_enc fe);
+         if g "dec" = "1" then begin
+           let d = decoded_view fe (hexn (g "p0")) lazy_data in
+           Buffer.add_string b "|dec=";
+           let trexs = split_on ',' (g "trex") in
+           let q name tx =
+             let r = get_full_samples d tx in
+             Buffer.add_string b (" R" ^ name ^ "=" ^ res_class r);
+             (match r with Base.Ok l -> Buffer.add_string b (":" ^ full_string l) | _ -> ()) in
+           q "n" None;
+           L.iteri (fun i s -> let t = n_of_int (i + 1) in q (hn t) (parse_trex t s)) trexs
+         end
+       | _ -> ()
+     end);
+  let m = Buffer.contents b in
+  if m = obs then Printf.printf "OK %s\n" id else Printf.printf "MISMATCH %s model=%s\n" id m
+
 let () =
   iter_lines (fun line ->
       match split_on '\t' line with
       | ["O"; id; opt; tfs; trs; smps; txs; obs] -> case_o id opt tfs trs smps txs obs
+      | ["H"; id; cfg; ops; obs] -> case_h id cfg ops obs
       | "STAT" :: _ -> ()
       | _ -> Printf.printf "BADLINE %s\n" (if S.length line > 80 then S.sub line 0 80 else line))
